@@ -125,6 +125,10 @@ static void a_after_send(sn_conn *c) {
 	}
 }
 
+/* prelude (cases "ha-reuse"): the context has already carried another HA service, which was freed while a copy of its request
+ * was still unanswered (the normal end of "first valid reply wins"); what the SDK recycles from it must not leak into this one */
+static int g_prelude;
+static KSI_CTX *g_keep_ctx;
 static void a_open(void) {
 	int e, nE = W.nE, nR = W.nR, out[MAXE];
 	size_t p = 0;
@@ -134,7 +138,8 @@ static void a_open(void) {
 	W.nE = nE; W.nR = nR; memcpy(W.out, out, sizeof out);
 	sn_reset(); fc_reset();
 	sn.on_connect = a_connect; sn.after_send = a_after_send;
-	W.ctx = ku_ctx();
+	W.ctx = g_keep_ctx ? g_keep_ctx : ku_ctx();
+	g_keep_ctx = NULL;
 	if (KSI_SigningHighAvailabilityService_new(W.ctx, &W.ha) != KSI_OK) vf_harness_error("HA service");
 	for (e = 0; e < nE; e++) {
 		char uri[64];
@@ -461,9 +466,24 @@ static int canonical(const unsigned char *ev, int n, int next) {
 }
 
 /* replays a history on a fresh world; returns 0 if its last event is not enabled */
+static void a_prelude(void) {
+	int nE = W.nE, nR = W.nR, out[MAXE], i;
+	memcpy(out, W.out, sizeof out);
+	W.nE = 2; W.nR = 1; W.out[0] = O_VALID; W.out[1] = O_TIMEOUT;
+	a_open();
+	a_apply(EV_ADD); a_apply(EV_RUN); a_apply(EV_ANS0);
+	for (i = 0; i < 3; i++) a_apply(EV_RUN);
+	if (W.nreq != 1 || !W.req[0].completed) vf_harness_error("prelude: the request of the first service did not complete");
+	for (i = 0; i < W.nkeep; i++) KSI_AsyncHandle_free(W.keep[i]);
+	W.nkeep = 0;
+	KSI_AsyncService_free(W.ha);
+	g_keep_ctx = W.ctx;
+	W.nE = nE; W.nR = nR; memcpy(W.out, out, sizeof out);
+}
 static int a_replay(const unsigned char *ev, int n) {
 	int i;
 	hist_name(ev, n, g_hist);
+	if (g_prelude) a_prelude();
 	a_open();
 	for (i = 0; i < n; i++) {
 		if (!a_apply(ev[i])) return 0;
@@ -550,6 +570,14 @@ static void part_a(void) {
 			if ((nE == 2 && nR == 2) || (nE == 3 && nR == 1)) clk = VF_THOROUGH ? 9 : 1;
 			if (nE == 3 && nR == 2) { if (!VF_THOROUGH) continue; clk = silent ? 1 : 0; }
 			max_len = 40;            /* history length bound after the fixed prefix (never reached: the reachable state space is finite) */
+			/* the same search on a context that has carried (and freed) another HA service before */
+			if (nR == 1 && nE >= 2 && vf_case_begin("ha-reuse:e%d:r%d:%s:clk%d", nE, nR, nm, clk)) {
+				g_prelude = 1;
+				a_case(nE, nR, out, max_states, max_len, clk);
+				g_prelude = 0;
+				vf_outcome("ha:context-reused");
+				vf_case_end(n_traces > 1);
+			}
 			if (!vf_case_begin("ha:e%d:r%d:%s:clk%d", nE, nR, nm, clk)) continue;
 			a_case(nE, nR, out, max_states, max_len, clk);
 			if (nE == 2 && nR == 2 && code < 2) vf_sample("part a, %d endpoints with outcomes %s, %d user requests: %ld distinct states, %ld histories replayed, %ld events executed (%s)", nE, nm, nR, n_states, n_traces, n_transitions, EV_LEGEND);
@@ -597,7 +625,7 @@ static void conf_fail(const char *sig, const char *msg) {
 static void conf_clear(conf_t *c) { int f; for (f = 0; f < NF; f++) c->v[f] = -1; }
 
 typedef struct {
-	int kind, nE, mode;           /* mode 0: push-config callback, 1: PUSH_CONFIG_RECEIVED handles, 2: handles, all pushes before the first run (3: as 1, first endpoint via setEndpoint) */
+	int kind, nE, mode;           /* mode 0: push-config callback, 1: PUSH_CONFIG_RECEIVED handles, 2: handles, all pushes before the first run (3: as 1, first endpoint via setEndpoint; 4: as 0, callback registered on the context) */
 	KSI_CTX *ctx;
 	KSI_AsyncService *ha;
 	uint64_t prime_id[MAXE]; int prime_seen[MAXE];
@@ -621,6 +649,11 @@ static int b_conf_cb(KSI_CTX *ctx, KSI_Config *cfg) {
 	(void)ctx;
 	read_config(cfg, &B.view);
 	B.ndeliv++; B.ndeliv_cb++;
+	return KSI_OK;
+}
+static int b_conf_cb_other(KSI_CTX *ctx, KSI_Config *cfg) {
+	(void)ctx; (void)cfg;
+	conf_fail("conf-delivered-to-wrong-callback", "the consolidated configuration of this HA service was handed to the context's callback for the OTHER kind of service (aggregator / extender mixed up)");
 	return KSI_OK;
 }
 static void b_after_send(sn_conn *c) {
@@ -663,7 +696,9 @@ static int b_run(void) {
 static void b_open(int kind, int nE, int mode) {
 	KSI_AsyncHandle *h = NULL;
 	int e, r, setup = (mode == 3);   /* mode 3: handle delivery on a service whose first endpoint was given with KSI_AsyncService_setEndpoint */
+	int ctxcb = (mode == 4);         /* mode 4: callback delivery through the callback registered on the CONTEXT for this kind of service */
 	if (setup) mode = 1;
+	if (ctxcb) mode = 0;
 	memset(&B, 0, sizeof B);
 	B.kind = kind; B.nE = nE; B.mode = mode;
 	conf_clear(&B.view);
@@ -678,7 +713,12 @@ static void b_open(int kind, int nE, int mode) {
 		else if (KSI_AsyncService_addEndpoint(B.ha, uri, LOGIN, KEY) != KSI_OK) vf_harness_error("addEndpoint");
 	}
 	KSI_AsyncService_setOption(B.ha, KSI_ASYNC_OPT_MAX_REQUEST_COUNT, (void *)(size_t)8);
-	if (mode == 0 && KSI_AsyncService_setOption(B.ha, KSI_ASYNC_OPT_PUSH_CONF_CALLBACK, (void *)b_conf_cb) != KSI_OK) vf_harness_error("callback option");
+	if (mode == 0 && !ctxcb && KSI_AsyncService_setOption(B.ha, KSI_ASYNC_OPT_PUSH_CONF_CALLBACK, (void *)b_conf_cb) != KSI_OK) vf_harness_error("callback option");
+	if (ctxcb) {
+		/* the callback of the other kind of service is registered as well: it must never see this service's configuration */
+		if (KSI_CTX_setOption(B.ctx, kind == RP_AGGR ? KSI_OPT_AGGR_CONF_RECEIVED_CALLBACK : KSI_OPT_EXT_CONF_RECEIVED_CALLBACK, (void *)b_conf_cb) != KSI_OK) vf_harness_error("context callback");
+		if (KSI_CTX_setOption(B.ctx, kind == RP_AGGR ? KSI_OPT_EXT_CONF_RECEIVED_CALLBACK : KSI_OPT_AGGR_CONF_RECEIVED_CALLBACK, (void *)b_conf_cb_other) != KSI_OK) vf_harness_error("context callback");
+	}
 	/* the TCP sub-services connect only when there is something to send: one request, refused by every endpoint with an error status */
 	if (kind == RP_AGGR) {
 		KSI_DataHash *dh = NULL;
@@ -791,7 +831,7 @@ static void b_multiset(int kind, int nE, int n, const conf_t *cfg, const int *ep
 	int mode, f, j, distinct_eps = 1, nperm_total = 0;
 	int bad[NF] = {0};
 	for (j = 0; j < n; j++) { int i; for (i = 0; i < j; i++) if (eps[i] == eps[j]) distinct_eps = 0; }
-	for (mode = 0; mode < 4; mode++) {
+	for (mode = 0; mode < 5; mode++) {
 		int p[3] = {0, 1, 2}, first = 1;
 		conf_t ref_final;
 		char first_order[8] = "";
